@@ -40,8 +40,8 @@ ASSUMPTIONS = [
     "have the largest size the oracle accepts the radius of any of them",
     "the diametral vertex is accepted if its forward or its backward eccentricity equals the diameter",
     "thread schedules are those the OS produces on pools of 1..16 threads",
-    "run_symm: the exit theorem assumes radius <= n/2 for the radial set (a largest connected component); the fact is not "
-    "proved in Coq, the aspect 'symhyp' checks it on every explored symmetric graph",
+    "run_symm: radius <= n/2 for a radial set containing a whole connected component is proved (C16_component_radius_half); "
+    "the aspect 'symhyp' still evaluates it on every explored symmetric graph as a sanity check of the oracle",
     "directed SCC step: the replay takes the component numbering from the extracted model of sccs::tarjan (proved to be an "
     "SCC labelling in reverse topological order, C16_tarjan_scc_topo; Level::run calls sccs::tarjan on the graph, and C15 "
     "compares that routine with the model); a different numbering in the implementation would show as a replay mismatch",
@@ -103,15 +103,15 @@ def run_ess(ctx, harness_args, oracle_aspects, corr_aspects, nontrivial, seed_of
 
 def run(ctx):
     quick = ctx["tier"] == "quick"
-    oracle = {"status", "exact", "eccf", "eccb", "diam", "dv", "radius", "rv", "sched", "symhyp"}
+    oracle = {"status", "exact", "eccf", "eccb", "diam", "dv", "radius", "rv", "sched", "symhyp", "big"}
     corr = {"replay", "replaya", "replayd", "replayrv", "schedrv"}
     nontrivial = (lambda c: None if int(c.get("n", "0")) < 2 else
                   (c.get("g"), c.get("sym"), c.get("rad"), c.get("lvl"), c.get("tot")))
     matchers = []
     if quick:
-        runs = [("quick", "150", 0)]
+        runs = [("quick", "150", 0), ("sawtooth", "120", 20)]
     else:
-        runs = [("rest", "1500", 0)] + [("exh4:%d/8" % k, "0", 1 + k) for k in range(8)]
+        runs = [("rest", "1500", 0), ("sawtooth", "1200", 20)] + [("exh4:%d/8" % k, "0", 1 + k) for k in range(8)]
     rs = []
     for mode, count, so in runs:
         rs.append(run_ess(ctx, ["--count", count, "--maxn", "150", "--mode", mode], oracle, corr, nontrivial, so,
@@ -120,7 +120,9 @@ def run(ctx):
     r["rule"] = ("all digraphs on <= 3 nodes (loops included) x every level x use_tot x {default radial set, every explicit "
                  "radial set}; digraphs on 4 nodes (all in the thorough tier) and a sample on 5; all symmetric graphs on <= 4 "
                  "nodes (5 sampled); random digraphs up to 150 nodes (sparse, DAG, many SCCs, disconnected, one big SCC, chains, "
-                 "dense) and random symmetric graphs (sparse, trees, equal-sized parts, paths); pools of 1..16 threads; "
+                 "dense) and random symmetric graphs (sparse, trees, equal-sized parts, paths); pools of 1..16 threads; a schedule probe "
+                 "(a 1025-node directed path whose nodes all complete in one parallel refinement step, 120/1200 runs on 4 and 16 "
+                 "threads, expected values known from the construction: aspect big, unproved); "
                  "distinct = different (graph, symmetric, radial set, level, use_tot) with at least 2 nodes")
     violations, known = codec.verdict("C16", r, known_matchers=matchers)
     r.update({"violations": violations, "known": known})
